@@ -112,6 +112,15 @@ class ApiGen:
         m = self.vds[name]
         v = "$" + name
         k = r.integers(0, 32)
+        if r.random() < 0.03:
+            # dimensions whose product does not fit an int: refused, and the
+            # object stays what it was
+            n_ = int(r.choice([65536, 46341, 2147483647]))
+            which = "vnadata_init" if r.random() < 0.5 else "vnadata_resize"
+            ln = s.op(which, v, 0, n_, n_, 1)
+            self.expect_fail(ln, FAIL_INT, "rows * columns overflows")
+            s.op("dump_vnadata", v)
+            return
         if k >= 30:
             # allocation dance in per-frequency z0 mode: shrink / grow the
             # frequency count and the port count in changing order so that
